@@ -108,7 +108,10 @@ class ThreadSched:
         self.trace = trace
         self.files = set(files)
         self.switch = (switch_num, switch_den)
-        self.max_points = max_points
+        self.max_points = max_points      # quiet window: points / scheduling decisions without any progress() call
+        self.hard_points = 10 * max_points  # absolute bound (a run that keeps progressing for ever)
+        self._prog_point = 0
+        self._prog_iter = 0
         self.threads: List[SimThread] = []
         self.current: Optional[SimThread] = None
         self.main_evt = threading.Event()
@@ -120,6 +123,12 @@ class ThreadSched:
         self.fp: List[str] = []
         self.aborting = False
         self.stall: Dict[str, int] = {}   # thread name -> not schedulable before this many scheduling decisions (stalled-thread fault)
+
+    def progress(self) -> None:
+        """Called by the harness whenever an operation of the workload completes: the step caps are windows of
+        *no progress*, not budgets for the whole run (a busy-polling receive burns steps while it legitimately waits)."""
+        self._prog_point = self.points
+        self._prog_iter = self.iters
 
     # ---- API for the code under test (patched in) -----------------------------
     def timer(self) -> float:
@@ -161,7 +170,7 @@ class ThreadSched:
             raise SystemExit
         self.points += 1
         th.points += 1
-        if self.points > self.max_points:
+        if self.points - self._prog_point > self.max_points or self.points > self.hard_points:
             self.aborting = True
             raise StepCapHit()
         if len(self.threads) > 1 and self.ch.flag(self.switch[0], self.switch[1], "preempt"):
@@ -222,7 +231,7 @@ class ThreadSched:
                         continue
                     raise Deadlock(", ".join(f"{t.name}:{t.state}" for t in alive))
                 self.iters += 1
-                if self.iters > self.max_points:
+                if self.iters - self._prog_iter > self.max_points or self.iters > self.hard_points:
                     # scheduling decisions are capped as well (a thread polling outside the traced files)
                     self.aborting = True
                     raise StepCapHit()
